@@ -80,49 +80,62 @@ def _inactive(ctx, rule='C08.1'):
            'the only removal iterates the collected list %s' % lst,
            construct='removal ranges over the collected list')
     writers = 0
+    by_ast = {}
     for node in graph.nodes:
-        if node.kind != 'stmt':
+        if node.kind == 'stmt' and node.ast is not None:
+            by_ast[id(node.ast)] = node
+    for part in K.list_contributions(func, lst):
+        if 'other' in part:
+            if isinstance(part['other'], ast.Assign):
+                ctx.fail(rule, func, part['other'],
+                         'the collected list is built in a way the check '
+                         'does not recognise')
             continue
-        stmt = node.ast
-        # appends
-        for call in C.node_calls(node):
-            if K.is_meth(call, 'append', 'extend', 'add') and \
-                    K.recv_text(call) == lst:
-                writers += 1
-                down = any(_state_fact(f, statevar, 'down')
-                           for f in facts[node])
-                expired = [f for f in facts[node] if f.key[0] == 'cmp' and
-                           f.key[1] in ('<', '<=') and sorted(
-                               t for t, _c in f.key[2]) == sorted(
-                                   ['expires_at', 'time.time()']) and
-                           dict(f.key[2])['expires_at'] > 0]
-                ctx.ob(rule, func, node, down,
-                       'collected only from a server whose state is down',
-                       construct='%s [state down]' % node.text(50))
-                ctx.ob(rule, func, node, bool(expired),
-                       'collected only when expires_at <= now; facts: %s' %
-                       sorted(N.show(f) for f in facts[node]),
-                       construct='%s [expired]' % node.text(50))
-        if isinstance(stmt, ast.Assign) and N.txt(stmt.targets[0]) == lst:
-            if isinstance(stmt.value, ast.List) and not stmt.value.elts:
-                continue
-            writers += 1
-            frozen = any(_state_fact(f, statevar, 'frozen')
-                         for f in facts[node])
-            comp = stmt.value
-            okc = isinstance(comp, ast.ListComp) and \
-                len(comp.generators) == 1 and \
-                [N.txt(i) for i in comp.generators[0].ifs] == [
-                    '%s.unschedule' % N.txt(comp.generators[0].target)] and \
-                N.txt(comp.generators[0].iter).startswith(
-                    '%s.apps' % srv)
-            ctx.ob(rule, func, node, frozen,
+        node = by_ast.get(id(part['node']))
+        if node is None:
+            continue
+        writers += 1
+        have = set(facts[node])
+        elt = part['elt']
+        eltv = N.txt(elt) if elt is not None else None
+        # comprehension filters count as guards of the element
+        if isinstance(part['node'], ast.Assign) and \
+                isinstance(part['node'].value, ast.ListComp):
+            for gen in part['node'].value.generators:
+                for cond in gen.ifs:
+                    form = nz.formula(cond)
+                    parts_ = [form] if form[0] == 'atom' else (
+                        form[1] if form[0] == 'and' else [])
+                    have |= set(p[1] for p in parts_ if p[0] == 'atom')
+        down = any(_state_fact(f, statevar, 'down') for f in have)
+        frozen = any(_state_fact(f, statevar, 'frozen') for f in have)
+        expired = [f for f in have if f.key[0] == 'cmp' and
+                   f.key[1] in ('<', '<=') and sorted(
+                       t for t, _c in f.key[2]) == sorted(
+                           ['expires_at', 'time.time()']) and
+                   dict(f.key[2])['expires_at'] > 0]
+        marked = any(f.key[0] == 'truth' and f.key[2] and
+                     f.key[1] == '%s.unschedule' % eltv for f in have)
+        from_srv = bool(part['domains']) and N.txt(
+            part['domains'][-1][1]).startswith('%s.apps' % srv) or \
+            bool(part['domains']) and '%s.apps' % srv in K.rtxt(
+                func, part['domains'][-1][1])
+        if frozen or not down:
+            ctx.ob(rule, func, node, frozen and not down,
                    'bulk collection only from a server whose state is '
                    'frozen', construct='%s [state frozen]' % node.text(50))
-            ctx.ob(rule, func, node, okc,
+            ctx.ob(rule, func, node, marked and from_srv,
                    'from a frozen server exactly the instances flagged '
                    'unschedule', construct='%s [unschedule only]' %
                    node.text(50))
+        else:
+            ctx.ob(rule, func, node, down,
+                   'collected only from a server whose state is down',
+                   construct='%s [state down]' % node.text(50))
+            ctx.ob(rule, func, node, bool(expired),
+                   'collected only when expires_at <= now; facts: %s' %
+                   sorted(N.show(f) for f in have),
+                   construct='%s [expired]' % node.text(50))
     ctx.require(writers >= 2, 'writers of the collected list')
     # expires_at definition
     defs = [n for n in graph.nodes if n.kind == 'stmt' and
